@@ -1,13 +1,24 @@
 #!/bin/sh
-# Dev aid: generate cases with the real client, judge them with ApiModel (TLC), list what differs.
+# Dev aid for spec/ApiModel.tla: generate cases with the real client, judge them with ApiModel (TLC),
+# list what differs; then the cross-generation pairs (section 3) and the totality sweep.
 # usage: run.sh [SEED] [N_CASES]   (scratch in $W; NOGEN=1 re-uses the cases of the last run)
 W=${W:-/tmp/apidev}
 mkdir -p "$W/meta"
 D=$(dirname "$(readlink -f "$0")")
-[ -n "$NOGEN" ] || /venv/bin/python "$D/gen_cases.py" "$W/cases.json" "${1:-1}" "${2:-40}" || exit 1
+SEED=${1:-1}
+N=${2:-40}
+if [ -z "$NOGEN" ]; then
+  /venv/bin/python "$D/gen_cases.py" "$W/cases.json" "$SEED" "$N" || exit 1
+  (cd "$D" && /venv/bin/python gen_pairs.py "$W/pairs.json" "$SEED" "$(( (N + 1) / 2 ))") || exit 1
+  /venv/bin/python -c "import json,sys; json.dump(json.load(open('$W/cases.json'))[:16], open('$W/cases_small.json','w'))"
+fi
 cp /verif/spec/ApiModel.tla /verif/spec/WireMatch.tla /verif/spec/WireMsg.tla /verif/spec/AT4Msg.tla \
-   /verif/spec/AT5Msg.tla "$D/Dev.tla" "$D/Dev.cfg" "$W/" || exit 1
-cd "$W" && CASES="$W/cases.json" OUT="$W/out.json" \
-  tlc -workers 4 -metadir "$W/meta/dev" -noGenerateSpecTE -config Dev.cfg Dev.tla > "$W/tlc.log" 2>&1
-grep -n "Error\|error\|\"cases\"" "$W/tlc.log" | head -20
+   /verif/spec/AT5Msg.tla "$D"/*.tla "$D"/*.cfg "$W/" || exit 1
+cd "$W" || exit 1
+t() { tlc -workers 4 -metadir "$W/meta/$1" -noGenerateSpecTE -config "$1.cfg" "$1.tla" > "$W/$1.log" 2>&1
+      grep -n "rror\|^<<" "$W/$1.log" | head -20; }
+CASES="$W/cases.json" OUT="$W/out.json" t Dev
 /venv/bin/python "$D/compare.py" "$W/cases.json" "$W/out.json"
+CASES="$W/pairs.json" OUT="$W/pairs_out.json" t Pairs
+/venv/bin/python "$D/pairs_compare.py" "$W/pairs_out.json"
+CASES="$W/cases_small.json" t Totality
